@@ -2081,3 +2081,295 @@ let rec ref_get_at p pos l =
 
 let ref_get l p =
   ref_get_at p O l
+
+type item =
+| IOk of coq_N list * nat * nat
+| IErr
+| IEnd
+
+(** val item_rect :
+    (coq_N list -> nat -> nat -> 'a1) -> 'a1 -> 'a1 -> item -> 'a1 **)
+
+let item_rect f f0 f1 = function
+| IOk (key, a, b) -> f key a b
+| IErr -> f0
+| IEnd -> f1
+
+(** val item_rec :
+    (coq_N list -> nat -> nat -> 'a1) -> 'a1 -> 'a1 -> item -> 'a1 **)
+
+let item_rec f f0 f1 = function
+| IOk (key, a, b) -> f key a b
+| IErr -> f0
+| IEnd -> f1
+
+(** val arr_items : nat -> bool -> nat -> coq_N list -> item list **)
+
+let rec arr_items fuel first pos l =
+  match fuel with
+  | O -> IErr :: []
+  | S f ->
+    let l1 = ws l in
+    let p1 = add pos (sub (length l) (length l1)) in
+    (match l1 with
+     | [] -> IErr :: []
+     | c :: r ->
+       if N.eqb c (Npos (Coq_xI (Coq_xO (Coq_xI (Coq_xI (Coq_xI (Coq_xO
+            Coq_xH)))))))
+       then IEnd :: []
+       else if first
+            then let p = (p1, l1) in
+                 let ok = true in
+                 let (p2, l2) = p in
+                 if ok
+                 then (match pvalue false (fuel_for l2) p2 l2 with
+                       | Some p0 ->
+                         let (p3, rest) = p0 in
+                         let (p4, b) = p3 in
+                         let (_, a) = p4 in
+                         (IOk ([], a, b)) :: (arr_items f false b rest)
+                       | None -> IErr :: [])
+                 else IErr :: []
+            else if N.eqb c (Npos (Coq_xO (Coq_xO (Coq_xI (Coq_xI (Coq_xO
+                      Coq_xH))))))
+                 then let p = ((S p1), r) in
+                      let ok = true in
+                      let (p2, l2) = p in
+                      if ok
+                      then (match pvalue false (fuel_for l2) p2 l2 with
+                            | Some p0 ->
+                              let (p3, rest) = p0 in
+                              let (p4, b) = p3 in
+                              let (_, a) = p4 in
+                              (IOk ([], a, b)) :: (arr_items f false b rest)
+                            | None -> IErr :: [])
+                      else IErr :: []
+                 else let p = (p1, l1) in
+                      let ok = false in
+                      let (p2, l2) = p in
+                      if ok
+                      then (match pvalue false (fuel_for l2) p2 l2 with
+                            | Some p0 ->
+                              let (p3, rest) = p0 in
+                              let (p4, b) = p3 in
+                              let (_, a) = p4 in
+                              (IOk ([], a, b)) :: (arr_items f false b rest)
+                            | None -> IErr :: [])
+                      else IErr :: [])
+
+(** val ref_array_iter : coq_N list -> item list **)
+
+let ref_array_iter l =
+  if utf8_valid l
+  then (match ws l with
+        | [] -> IErr :: []
+        | n :: r ->
+          (match n with
+           | N0 -> IErr :: []
+           | Npos p ->
+             (match p with
+              | Coq_xI p0 ->
+                (match p0 with
+                 | Coq_xI p1 ->
+                   (match p1 with
+                    | Coq_xO p2 ->
+                      (match p2 with
+                       | Coq_xI p3 ->
+                         (match p3 with
+                          | Coq_xI p4 ->
+                            (match p4 with
+                             | Coq_xO p5 ->
+                               (match p5 with
+                                | Coq_xH ->
+                                  arr_items (S (length l)) true (S
+                                    (sub (length l) (length (ws l)))) r
+                                | _ -> IErr :: [])
+                             | _ -> IErr :: [])
+                          | _ -> IErr :: [])
+                       | _ -> IErr :: [])
+                    | _ -> IErr :: [])
+                 | _ -> IErr :: [])
+              | _ -> IErr :: [])))
+  else IErr :: []
+
+(** val obj_items : nat -> bool -> nat -> coq_N list -> item list **)
+
+let rec obj_items fuel first pos l =
+  match fuel with
+  | O -> IErr :: []
+  | S f ->
+    let l1 = ws l in
+    let p1 = add pos (sub (length l) (length l1)) in
+    (match l1 with
+     | [] -> IErr :: []
+     | c :: r ->
+       if N.eqb c (Npos (Coq_xI (Coq_xO (Coq_xI (Coq_xI (Coq_xI (Coq_xI
+            Coq_xH)))))))
+       then IEnd :: []
+       else let (p, ok) =
+              if first
+              then ((p1, l1), true)
+              else if N.eqb c (Npos (Coq_xO (Coq_xO (Coq_xI (Coq_xI (Coq_xO
+                        Coq_xH))))))
+                   then let r1 = ws r in
+                        (((add (S p1) (sub (length r) (length r1))), r1),
+                        true)
+                   else ((p1, l1), false)
+            in
+            let (p2, l2) = p in
+            if ok
+            then (match l2 with
+                  | [] -> IErr :: []
+                  | n :: kr ->
+                    (match n with
+                     | N0 -> IErr :: []
+                     | Npos p0 ->
+                       (match p0 with
+                        | Coq_xO p3 ->
+                          (match p3 with
+                           | Coq_xI p4 ->
+                             (match p4 with
+                              | Coq_xO p5 ->
+                                (match p5 with
+                                 | Coq_xO p6 ->
+                                   (match p6 with
+                                    | Coq_xO p7 ->
+                                      (match p7 with
+                                       | Coq_xH ->
+                                         (match str_body true (S (length kr))
+                                                  kr with
+                                          | Some p8 ->
+                                            let (p9, rest) = p8 in
+                                            let (k, _) = p9 in
+                                            let pk =
+                                              add p2
+                                                (sub (length l2)
+                                                  (length rest))
+                                            in
+                                            let r1 = ws rest in
+                                            let pc =
+                                              add pk
+                                                (sub (length rest)
+                                                  (length r1))
+                                            in
+                                            (match r1 with
+                                             | [] -> IErr :: []
+                                             | n0 :: r2 ->
+                                               (match n0 with
+                                                | N0 -> IErr :: []
+                                                | Npos p10 ->
+                                                  (match p10 with
+                                                   | Coq_xO p11 ->
+                                                     (match p11 with
+                                                      | Coq_xI p12 ->
+                                                        (match p12 with
+                                                         | Coq_xO p13 ->
+                                                           (match p13 with
+                                                            | Coq_xI p14 ->
+                                                              (match p14 with
+                                                               | Coq_xI p15 ->
+                                                                 (match p15 with
+                                                                  | Coq_xH ->
+                                                                    (match 
+                                                                    pvalue
+                                                                    false
+                                                                    (fuel_for
+                                                                    r2) (S
+                                                                    pc) r2 with
+                                                                    | Some p16 ->
+                                                                    let (
+                                                                    p17, r3) =
+                                                                    p16
+                                                                    in
+                                                                    let (
+                                                                    p18, b) =
+                                                                    p17
+                                                                    in
+                                                                    let (
+                                                                    _, a) =
+                                                                    p18
+                                                                    in
+                                                                    (IOk (k,
+                                                                    a,
+                                                                    b)) :: 
+                                                                    (obj_items
+                                                                    f false b
+                                                                    r3)
+                                                                    | None ->
+                                                                    IErr :: [])
+                                                                  | _ ->
+                                                                    IErr :: [])
+                                                               | _ ->
+                                                                 IErr :: [])
+                                                            | _ -> IErr :: [])
+                                                         | _ -> IErr :: [])
+                                                      | _ -> IErr :: [])
+                                                   | _ -> IErr :: [])))
+                                          | None -> IErr :: [])
+                                       | _ -> IErr :: [])
+                                    | _ -> IErr :: [])
+                                 | _ -> IErr :: [])
+                              | _ -> IErr :: [])
+                           | _ -> IErr :: [])
+                        | _ -> IErr :: [])))
+            else IErr :: [])
+
+(** val ref_object_iter : coq_N list -> item list **)
+
+let ref_object_iter l =
+  if utf8_valid l
+  then (match ws l with
+        | [] -> IErr :: []
+        | n :: r ->
+          (match n with
+           | N0 -> IErr :: []
+           | Npos p ->
+             (match p with
+              | Coq_xI p0 ->
+                (match p0 with
+                 | Coq_xI p1 ->
+                   (match p1 with
+                    | Coq_xO p2 ->
+                      (match p2 with
+                       | Coq_xI p3 ->
+                         (match p3 with
+                          | Coq_xI p4 ->
+                            (match p4 with
+                             | Coq_xI p5 ->
+                               (match p5 with
+                                | Coq_xH ->
+                                  obj_items (S (length l)) true (S
+                                    (sub (length l) (length (ws l)))) r
+                                | _ -> IErr :: [])
+                             | _ -> IErr :: [])
+                          | _ -> IErr :: [])
+                       | _ -> IErr :: [])
+                    | _ -> IErr :: [])
+                 | _ -> IErr :: [])
+              | _ -> IErr :: [])))
+  else IErr :: []
+
+(** val merge : nat -> jv -> jv -> jv **)
+
+let rec merge fuel sch doc =
+  match fuel with
+  | O -> doc
+  | S f ->
+    (match sch with
+     | JObj ms ->
+       (match ms with
+        | [] -> doc
+        | sm :: sms ->
+          (match doc with
+           | JObj dms ->
+             JObj
+               (map (fun m ->
+                 let (y, sv) = m in
+                 let (y0, b) = y in
+                 let (k, a) = y0 in
+                 (match assoc_first dms k with
+                  | Some p ->
+                    let (_, dv) = p in (((k, a), b), (merge f sv dv))
+                  | None -> (((k, a), b), sv))) (sm :: sms))
+           | _ -> doc))
+     | _ -> doc)
